@@ -162,6 +162,7 @@ func TestC18Builtins(t *testing.T) {
 			}
 			tcancel()
 			// values: own or inherited through nil contexts
+			commonChecked := false
 			for _, a := range x.R.Ancestors(tag) {
 				ar := x.R.Scopes[a]
 				inherits := a == tag
@@ -181,6 +182,13 @@ func TestC18Builtins(t *testing.T) {
 					wd, _ := ar.UserCtx.Deadline()
 					if gd, ok := ctx.Deadline(); !ok || !gd.Equal(wd) {
 						f = fail("C18", "ctx-deadline", fmt.Sprintf("inherit=%v", a != tag), "s%d.Context() reports deadline %v (%v), the context it descends from (given to s%d) has %v", tag, gd, ok, a, wd)
+					}
+				}
+				// a key that several contexts of the run use: the nearest context handed in decides
+				if ar.CommonVal != "" && inherits && !commonChecked {
+					commonChecked = true
+					if v := ctx.Value(kit.CtxCommonKey{}); v != ar.CommonVal {
+						f = fail("C18", "ctx-values", fmt.Sprintf("shadowed/inherit=%v", a != tag), "s%d.Context().Value(the key every context of the run carries) = %v, want %q - the value of the context handed to CreateScope for s%d", tag, v, ar.CommonVal, a)
 					}
 				}
 				if ar.CtxKey != nil && inherits {
@@ -234,6 +242,8 @@ func TestC18Builtins(t *testing.T) {
 				x.W.SetGate(nil)
 				if !kit.WaitOrTimeout(ctx.Done(), 5*time.Second) {
 					f = fail("C18", "ctx-cancel", "own", "the caller's context of s%d was cancelled but s%d.Context() is not done after 5 s", tag, tag)
+				} else if rec.Cause != nil && context.Cause(ctx) != rec.Cause {
+					f = fail("C18", "ctx-cancel", "cause", "the context handed to CreateScope for s%d was cancelled with cause %q; context.Cause(s%d.Context()) = %v", tag, rec.Cause, tag, context.Cause(ctx))
 				}
 				for _, bc := range below {
 					if !kit.WaitOrTimeout(bc.Done(), 5*time.Second) {
